@@ -77,7 +77,8 @@ func genFilter(r *Rng, i int, o genOpts) FilterSpec {
 		f.Scopes = []string{"openid", "offline_access", "api://x/.default"}
 	}
 	if r.Chance(0.5) {
-		f.CookiePrefix = []string{"p" + letter, "my-app_" + letter, "A.b~c" + letter}[r.Intn(3)]
+		// (prefixes that themselves look like a cookie-name prefix are ordinary tokens: the name still starts with __Host-)
+		f.CookiePrefix = []string{"p" + letter, "my-app_" + letter, "A.b~c" + letter, "__Secure-" + letter, "__host-" + letter, "__Host-" + letter}[r.Intn(6)]
 	}
 	if o.Logout == 1 || o.Logout == 0 && r.Chance(0.6) {
 		f.Logout = &LogoutCfg{Path: []string{"/logout", "/auth/sign-out"}[r.Intn(2)], RedirectURI: "https://idp-" + letter + ".test/ended?x=1"}
